@@ -26,6 +26,10 @@ MCDefaults ==
     [] Variant = "same_same" -> << [name |-> "n", body |-> RolesB({"dflt"}), dep |-> [name |-> "n", body |-> RolesB({"dflt"})], removal |-> 0] >>
     [] Variant = "removal" -> << [name |-> "n", body |-> RolesB({"dflt"}), dep |-> NoDep, removal |-> 1] >>
     [] Variant = "same"    -> << [name |-> "n", body |-> RolesB({"dflt"}), dep |-> [name |-> "n", body |-> RolesB({"old"})], removal |-> 0] >>
+    \* boundary: a check string that is the empty string (always allow) on either side
+    [] Variant = "renamed_any" -> << [name |-> "n", body |-> RolesB({"dflt"}), dep |-> [name |-> "o", body |-> AnyRule], removal |-> 0] >>
+    [] Variant = "same_any" -> << [name |-> "n", body |-> RolesB({"dflt"}), dep |-> [name |-> "n", body |-> AnyRule], removal |-> 0] >>
+    [] Variant = "any_new" -> << [name |-> "n", body |-> AnyRule, dep |-> [name |-> "o", body |-> RolesB({"old"})], removal |-> 0] >>
     [] Variant = "split"   -> << [name |-> "n", body |-> RolesB({"dflt"}), dep |-> [name |-> "o", body |-> RolesB({"old"})], removal |-> 0],
                                  [name |-> "n2", body |-> RolesB({"old"}), dep |-> [name |-> "o", body |-> RolesB({"old"})], removal |-> 0] >>
 
@@ -97,6 +101,14 @@ Delete(f) ==
   /\ dirs' = BumpDir(f, clock + 1)
   /\ removed' = (removed \/ ~IsEmptyRules(fs[f].content))
   /\ clock' = clock + 1 /\ synced' = FALSE /\ lastop' = "delete" /\ UNCHANGED <<st, nreg, enfnew>>
+\* a file of a policy directory is replaced by renaming another file into place (cp -p, rsync -t, a package
+\* upgrade): new content, the FILE's modification time does not advance (equal or older), the DIRECTORY's does
+Replace(f, kind, older) ==
+  /\ fs[f].exists /\ DirOfFile(f) # "none" /\ (older => fs[f].mtime > 1)
+  /\ fs' = [fs EXCEPT ![f] = [exists |-> TRUE, mtime |-> IF older THEN fs[f].mtime - 1 ELSE fs[f].mtime, content |-> Content(kind, f, clock + 1)]]
+  /\ removed' = (removed \/ Drops(fs[f].content, Content(kind, f, clock + 1)))
+  /\ dirs' = BumpDir(f, clock + 1)
+  /\ clock' = clock + 1 /\ synced' = FALSE /\ lastop' = "replace" /\ UNCHANGED <<st, nreg, enfnew>>
 \* an entry that is not a policy file (dot-file, sub-directory) appears or changes
 TouchIgnored(f) ==
   /\ fs' = [fs EXCEPT ![f] = [exists |-> TRUE, mtime |-> clock + 1, content |-> Content("new", f, clock + 1)]]
@@ -117,6 +129,7 @@ Load(force) ==
 
 Next == \/ \E f \in Mutable : \/ \E k \in {"new", "old", "alias", "both", "fixed"} : Write(f, k)
                               \/ Empty(f) \/ Touch(f) \/ Delete(f)
+                              \/ \E k \in {"new", "old"}, older \in BOOLEAN : Replace(f, k, older)
         \/ \E f \in {"d1/.hidden", "d1/sub"} : TouchIgnored(f)
         \/ Load(FALSE) \/ Load(TRUE)
         \/ RegisterNext
@@ -136,8 +149,9 @@ FreshExact == Fresh.rules = FreshPolicyN(fs, dirs, enfnew, nreg)
 \* C10: the long-lived enforcer, right after a load, decides as a fresh one
 LongLivedEqualsFresh == (synced /\ DefaultMode) => Decisions(st.rules) = Decisions(Fresh.rules)
 LongLivedExact == (synced /\ DefaultMode) => st.rules = Fresh.rules
-\* auxiliary: a cache entry with the file's current mtime holds the file's content
-CacheCoherent == \A f \in AllFiles : (st.cache[f].has /\ fs[f].exists /\ st.cache[f].mtime = fs[f].mtime) => st.cache[f].data = fs[f].content
+\* auxiliary: after a load, a cache entry with the file's current mtime holds the file's content
+\* (between a Replace - content changed under an unchanged mtime - and the next load it need not)
+CacheCoherent == synced => \A f \in AllFiles : (st.cache[f].has /\ fs[f].exists /\ st.cache[f].mtime = fs[f].mtime) => st.cache[f].data = fs[f].content
 \* C12: a load that follows a load (nothing changed in between) changes nothing -
 \* in either overwrite mode, and also when the second load is a forced reload
 \* (merge mode keeps definitions that were removed from the files until something
